@@ -96,7 +96,11 @@ func (o *Optimizer) buildFinalPlan(s Storage, fp Plan, stmt *SelectStmt) (FinalP
 				break
 			}
 		}
-		hasAggr = allInSelect
+		// (a statement with an aggregate function stays an aggregate
+		// statement when a group by field is not selected)
+		if allInSelect {
+			hasAggr = true
+		}
 	}
 	var ffp FinalPlan
 	if !hasAggr && stmt.GroupBy != nil && len(stmt.GroupBy.Fields) > 0 {
